@@ -1162,6 +1162,25 @@ func genStatusSentinels(r *Repo, l *Lean) {
 			}
 		}
 	}
+	// the table is the GRAPH of CodeText over the declared constants: a constant without an arm of its
+	// own gets the default's text (harmless seed C15-H2 dropped the `case CodeUnknownError: fallthrough`
+	// in front of `default`)
+	if okShape {
+		def, have := "", map[string]bool{}
+		for _, a := range arms {
+			have[a[0]] = true
+			if a[0] == "default" {
+				def = a[1]
+			}
+		}
+		if have["default"] {
+			for _, n := range names {
+				if !have[n] {
+					arms = append(arms, []string{n, def})
+				}
+			}
+		}
+	}
 	if !okShape || len(arms) == 0 {
 		l.Missing("statusCodeText", "CodeText is not a single switch whose arms return string literals")
 	} else {
